@@ -508,8 +508,19 @@ func checkC16(tier, replay string) int {
 						nLong++
 					}
 				}
-				if nLong > 1 || (nLong == 1 && shapes[len(shapes)-1] != shLong && len(shapes) > 3) {
-					return nil // at most one over-long line, and nothing is read after it anyway
+				if nLong > 1 {
+					return nil // at most one over-long line
+				}
+				if nLong == 1 && shapes[len(shapes)-1] != shLong && len(shapes) > 3 {
+					// longer texts with lines after the over-long one: only those whose tail is made of the lines that
+					// form sites (a parser that gives up at the long line without saying so loses exactly those)
+					after := false
+					for _, s := range shapes {
+						if after && s != shFunc && s != shLoadAX && s != shLoadStack && s != shRaw && s != shCall && s != shNeutral {
+							return nil
+						}
+						after = after || s == shLong
+					}
 				}
 				res := checkText(pc, shapes, true, prefix)
 				checkText(pc, shapes, false, prefix)
@@ -520,10 +531,8 @@ func checkC16(tier, replay string) int {
 				prefix[len(shapes)] = res
 				if res == nil {
 					prefix[len(shapes)] = []modelSite{}
-					// texts whose prefix is unreadable or panics are not extended for monotonicity
-					if _, bad := modelExtract(shapes, pc.i386, pc.names); bad {
-						return
-					}
+					// texts with an over-long line are extended too (visit decides which of them are parsed): what stands
+					// after the line must not be lost without an error
 				}
 				if len(shapes) == maxLines {
 					return
@@ -573,7 +582,7 @@ func checkC16(tier, replay string) int {
 	ctx.Cov["max_lines"] = maxLines
 	ctx.Cov["long_function_sweep_max"] = c16LongFunctions
 	ctx.Cov["unresolvable_site_count_sweep_max"] = c16ManyUnresolved
-	ctx.Cov["rule"] = fmt.Sprintf("all texts of <= %d lines over a %d-shape line alphabet (5 kinds of function marker incl. 'TEXT ', bare 'TEXT' and a generic symbol containing blanks, raw syscall instruction with and without location fields, the other architecture's raw instruction, number loads into AX/BP/stack, negative/unparsable/unknown numbers, the XOR idiom, calls of syscall.Syscall with and without location fields, neutral, empty and a 70000-byte line) for both parsers, with and without trailing newline, parsed by the real ExtractSyscalls under recover and compared with an independent site-model parser (number, name, caller, location), with the oracle tables, for monotonicity under appended functions and for an error whenever the text cannot be read to the end; plus the real `go tool objdump` output of a sample Go program built for amd64 and 386 (whole, and cut at function boundaries) compared with a text-level site model written without regular expressions, generated multi-function listings (all twelve wrapper entry points as callees and as containing functions; function markers of 600 and 5000 bytes; also with numbers carrying the x32 marker bit 0x40000000 on top of a valid number), a size sweep (load and site n neutral instructions apart for every n up to the bound in long_function_sweep_max, alone and followed by another function), a count sweep (m functions whose site has no determinable number - no load, an unparsable number, an unknown number - between two ordinary sites, for every m up to the bound in unresolvable_site_count_sweep_max), the same three listings read through a named pipe written in pieces, a read error injected (strace) at every read call of 3 listings (EIO once; then EAGAIN, ENOMEM and EIO once and from that call on for good, EINTR once, EAGAIN on every second call - extraction has to return within a 60 s horizon and a nil error still means the whole text), and every sequence of <= 3 (thorough 4) calls over {x86_64, x32, i386, arm} on one listing in one fresh process (each x86_64 / i386 answer must be the listing's sites whatever was called before); non-trivial = parses that report at least one syscall", maxLines, shCount)
+	ctx.Cov["rule"] = fmt.Sprintf("all texts of <= %d lines over a %d-shape line alphabet (5 kinds of function marker incl. 'TEXT ', bare 'TEXT' and a generic symbol containing blanks, raw syscall instruction with and without location fields, the other architecture's raw instruction, number loads into AX/BP/stack, negative/unparsable/unknown numbers, the XOR idiom, calls of syscall.Syscall with and without location fields, neutral, empty and a 70000-byte line - anywhere in texts of <= 3 lines, last or followed only by site-forming lines in longer ones) for both parsers, with and without trailing newline, parsed by the real ExtractSyscalls under recover and compared with an independent site-model parser (number, name, caller, location), with the oracle tables, for monotonicity under appended functions and for an error whenever the text cannot be read to the end; plus the real `go tool objdump` output of a sample Go program built for amd64 and 386 (whole, and cut at function boundaries) compared with a text-level site model written without regular expressions, generated multi-function listings (all twelve wrapper entry points as callees and as containing functions; function markers of 600 and 5000 bytes; also with numbers carrying the x32 marker bit 0x40000000 on top of a valid number), a size sweep (load and site n neutral instructions apart for every n up to the bound in long_function_sweep_max, alone and followed by another function), a count sweep (m functions whose site has no determinable number - no load, an unparsable number, an unknown number - between two ordinary sites, for every m up to the bound in unresolvable_site_count_sweep_max), the same three listings read through a named pipe written in pieces, a read error injected (strace) at every read call of 3 listings (EIO once; then EAGAIN, ENOMEM and EIO once and from that call on for good, EINTR once, EAGAIN on every second call - extraction has to return within a 60 s horizon and a nil error still means the whole text), and every sequence of <= 3 (thorough 4) calls over {x86_64, x32, i386, arm} on one listing in one fresh process (each x86_64 / i386 answer must be the listing's sites whatever was called before); non-trivial = parses that report at least one syscall", maxLines, shCount)
 	ctx.Assumptions = []string{"site model: the number is taken from the nearest preceding number-loading instruction of the same function after the previous detected site; raw sites inside syscall.Syscall wrappers are not sites", "strace fault injection (-e inject=read:error=EIO:when=N) realises read failures"}
 	ctx.Sample(map[string]any{"text": []string{"TEXT main.f0(SB) /src/f.go", "  f.go:1\t0x401001\t0f05\tMOVQ $0x3b, AX", "TEXT main.f2(SB) /src/f.go", "  f.go:3\t0x401003\t0f05\tSYSCALL"}, "expected": "no syscall: the load belongs to another function"})
 	return ctx.Finish()
